@@ -5,7 +5,6 @@ import (
 	"os"
 	"path/filepath"
 	"testing"
-	"time"
 
 	"pgregory.net/rapid"
 
@@ -34,13 +33,13 @@ func fuzzSeeds(f *testing.F) {
 func FuzzC04Parse(f *testing.F) {
 	fuzzSeeds(f)
 	f.Fuzz(func(t *testing.T, data []byte) {
-		if len(data) > 1<<20 {
+		if len(data) > 1<<18 {
 			return
 		}
 		if v, err := hx.ParseJV(data); err == nil && maxLicenceEntries(v) > kf05MaxLicences {
 			return // known finding KF-05
 		}
-		if o := totalityCheck(data, nil, 30*time.Second); o != nil {
+		if o := totalityCheck(data, nil, c04Budget); o != nil {
 			_ = os.WriteFile(filepath.Join(os.TempDir(), "verif-last-fuzz-failure"), []byte(base64.StdEncoding.EncodeToString(data)), 0o644)
 			t.Fatalf("%s\n  input (%d bytes): %q", o, len(data), trunc(string(data), 800))
 		}
